@@ -42,6 +42,11 @@ CLAIMS = {
          "For generated valid encodings of all 33 parser kinds every proper prefix (all for encodings <= 300 bytes; first 300 + span boundaries + 50 sampled beyond) must make ReadFrom report ErrNotEnoughBytes - never success, another error or a panic - and parsing the complete bytes afterwards from the restored position must equal a direct parse; at channel level a prefix packet followed by the remainder must deliver the package exactly once and queue no error.",
          "Only valid encodings are truncated (hostile bytes are C10's subject); KEY over types with 0/1-byte length prefix.",
          "DESIGN.md section 3, C07"),
+ "C08": ("exploration",
+         "exhaustive single-edit mutation of the valid server reply scripts + rapid multi-edit scripts x packetisations x key sizes x nonces x remote servers, run through the real Login against a scripted peer; oracle = reference acceptor written from the property text",
+         "Both login flows run against an in-memory peer that answers with generated scripts; every single-edit mutation (delete/duplicate/swap/insert packages, alter ack status, message id, parameter count/types, cipher suite, key, nonce, capability masks, DONE status, peer going silent) of four valid scripts is enumerated, random multi-edit scripts add depth; Login must succeed iff the acceptor accepts, otherwise return an error no later than context deadline + slack and never panic; after success capabilities and packet size must be the server's.",
+         "The reference acceptor is my reading of the statement; unjudged shapes (packages after the final DONE, key with trailing bytes, empty nonce, capability package lacking a mask type) are listed in the evidence; two by-the-letter violations are recorded open findings.",
+         "DESIGN.md section 3, C08"),
  "C11": ("exploration",
          "rapid histories of responses with interleaved EED/ENVCHANGE packages x packetisations x hook registrations x consumer modes against one global event log; exhaustive single cuts of a special-package-heavy response",
          "Responses with 0..6 messages and 0..3 environment changes are delivered under every kind of packetisation (special packages get parsed, rolled back and re-parsed) with hooks registered before or between responses; the event log must show every hook called exactly once per non-informational message / member, with equal contents, in arrival and registration order and before later packages reach the consumer; informational messages and environment changes are never delivered; PacketSize() follows the last PACKSIZE member; a failing callback's error matches the callback error and carries the messages that preceded the failure.",
